@@ -209,7 +209,10 @@ fn main() {
                     let res = std::panic::catch_unwind(|| rooc::solve_milp_lp_problem_with(&m, &options).map(|s| sol_json(&s)).unwrap_or_else(|e| err_json(&e)))
                         .unwrap_or_else(|_| json!({"status":"panic"}));
                     let raw = rooc::milp_verif_hooks::take_raw_status();
+                    let raw_bound = rooc::milp_verif_hooks::take_raw_bound();
                     let mut res = res; res["raw"] = json!(raw);
+                    // the bound rooc compares with: microlp's proven bound plus the model's constant term (same f64 sum as in the code)
+                    res["bound"] = json!(raw_bound.filter(|b| b.is_finite()).map(|b| fs(b + m.objective_offset())));
                     res["time_limit_ns"] = json!(tl.map(|d| d.as_nanos() as u64)); res["gap"] = json!(gap.map(fs));
                     let mut o = out.lock(); writeln!(o, "R {} {} {}", i, k, res).unwrap(); o.flush().unwrap();
                 }
